@@ -5,7 +5,7 @@ CONSTANTS
   AnnouncerOriginal = FALSE
   AnCfgDomain <- AnCfgs
   Mode = "announcer"
-  MaxR = 3
+  MaxR = 2
   MaxExtra = 0
   MaxReady = 0
   MaxResults = 0
